@@ -32,7 +32,24 @@ func repoDirFromEnv() string {
 	}
 	return "/repo"
 }
-const verifDir = "/verif"
+// verifDir: the checkout this binary belongs to (<verifDir>/bin/ruxsym), so
+// that a copy of /verif elsewhere reads its own harnesses and writes its own
+// evidence; RUXSYM_VERIF overrides.
+var verifDir = func() string {
+	if d := os.Getenv("RUXSYM_VERIF"); d != "" {
+		return d
+	}
+	if exe, err := os.Executable(); err == nil {
+		if real, err := filepath.EvalSymlinks(exe); err == nil {
+			exe = real
+		}
+		d := filepath.Dir(filepath.Dir(exe))
+		if _, err := os.Stat(filepath.Join(d, "harness", "api.go.tmpl")); err == nil {
+			return d
+		}
+	}
+	return "/verif"
+}()
 const ruxPath = "github.com/gookit/rux"
 
 var pkgDirs = map[string]string{ // harness dir -> package path suffix
